@@ -313,6 +313,13 @@ fn do_op(ctx: &mut Ctx, line: &str) -> String {
             if is_check(&ctx.cur, PieceColor::Black) { 1 } else { 0 }
         ),
         "eval" => format!("{}", evaluation::get_evaluation(&ctx.cur)),
+        "evalflip" => {
+            // the same placement with the other side to move, built the way the null move builds it
+            let a = evaluation::get_evaluation(&ctx.cur);
+            let mut b = ctx.cur.clone();
+            b.to_move = ctx.cur.to_move.opposite();
+            format!("{} {}", a, evaluation::get_evaluation(&b))
+        }
         "mk" => {
             uci::verif_make_move(&mut ctx.cur, rest, &ctx.hasher);
             format!("ok {}", state(&ctx.cur))
